@@ -4,7 +4,10 @@ import Srctools.Proofs.C20Img
 import Srctools.Proofs.C20Bvcd
 import Srctools.Proofs.C20Snd
 import Srctools.Proofs.C20SndTok
+import Srctools.Proofs.C20Vmt
+import Srctools.Proofs.C20VmtTok
 import Srctools.Gen.Kvser
+import Srctools.Props.C01
 import Srctools.Props.C02
 import Srctools.Gen.C20
 import Srctools.Gen.Tok
@@ -423,6 +426,71 @@ example : SndTextOK Gen.Tok.tables sampleSnd ∧ okKV {} (exportSndKV sampleSnd)
   refine ⟨⟨by decide +kernel, by decide +kernel, by decide +kernel, by decide +kernel⟩, by decide +kernel⟩
 
 end Snd
+
+/-! ## VMT: `Material.export` ↔ `Material.parse` -/
+
+namespace Vmt
+open C20.Vmt C01
+
+/-- OBLIGATION on the current source: the literal text of every write of `Material.export` and
+`_export_block`, the tokenizer options and words of `Material.parse`, and that `Proxies` is written
+bare by the quoting rule on the current tables. -/
+theorem C20_gen_vmt :
+    Gen.C20.vmtPieces = ["@_quote_if_required(self.shader)+'\\n\\t{\\n'", "\t$ $\n", "\n\tProxies\n\t\t{\n", "\t\t}\n", "\t}\n"] ∧
+    Gen.C20.vmtBlockPieces = ["$\"$\"\n$\t{\n", "$\t}\n", "$\"$\" \"$\"\n"] ∧
+    Gen.C20.vmtTokOpts = ["allow_escapes=False", "allow_star_comments=True", "string_bracket=True"] ∧
+    Gen.C20.vmtParseWords = ["Material", "Proxy", "proxies"] ∧
+    vmtQuote Gen.Tok.tables Gen.C20.vmtLead kProxies = kProxies := by decide
+
+/-- **Parser.** `Material.parse` on the token stream `toksVmt m` returns `m`: shader, every
+parameter in order (names distinct after case folding), the sub-blocks with their nesting, the
+proxies (children of the `Proxies` block) — for every representable material. -/
+theorem C20_vmt_tokens (fold : Char → List Char) (m : Vmt) (h : VmtOK fold m) :
+    parseVmt fold (toksVmt m) true = some m := parseVmt_toks fold m h
+
+/-- **Lexer.** The tokenizer with the options of `Material.parse` finds in the text written by
+`Material.export` exactly the tokens `toksVmt m` (shader / names / values bare or quoted by
+`_quote_if_required`, block names and values in plain quotes, braces, line structure), without
+error — for strings without `"`, CR, LF and leading BOM. -/
+theorem C20_vmt_lex (T : Tok.Tables) (hK : kvOK T = true) (lead : List Char)
+    (hT : vmtTablesOK T lead = true) (fold : Char → List Char) (m : Vmt) (h : VmtTextOK T lead m) :
+    (Tok.run T vmtOpts fold (exportVmt T lead m)).err = none ∧
+    (Tok.run T vmtOpts fold (exportVmt T lead m)).toks.map (fun o => (o.kind, o.value)) = toksVmt m := by
+  rw [run_exportVmt hK lead hT fold m h]
+  exact ⟨rfl, obsOf_proj 1 _⟩
+
+/-- **VMT round trip, text level**: `Material.parse(text written by Material.export) = m`. -/
+theorem C20_vmt (T : Tok.Tables) (hK : kvOK T = true) (lead : List Char) (hT : vmtTablesOK T lead = true)
+    (fold : Char → List Char) (m : Vmt) (ht : VmtTextOK T lead m) (hm : VmtOK fold m) :
+    parseVmtText T fold (exportVmt T lead m) = some m := by
+  unfold parseVmtText parseVmtRun
+  rw [run_exportVmt hK lead hT fold m ht]
+  have : (obsOf 1 (toksVmt m)).map ((fun o : Tok.Obs => (o.kind, o.value))) = toksVmt m := obsOf_proj 1 _
+  simp only [this]
+  exact parseVmt_toks fold m hm
+
+/-! non-vacuity -/
+def sampleVmt : Vmt :=
+  { shader := "Vertex Lit".toList,
+    params := [("$basetexture".toList, "/models/x".toList), ("%keywords".toList, [] ), ("$Color".toList, "[1 .5 0]".toList)],
+    blocks := [KV.block "insert".toList [KV.leaf "$a".toList "b\\c".toList, KV.block "sub".toList []]],
+    proxies := [KV.block "Sine".toList [KV.leaf "resultVar".toList "$alpha".toList]] }
+
+theorem C20_vmt_sample_ok : VmtOK (fun c => if c = 'P' then ['p'] else if c = 'C' then ['c'] else [c]) sampleVmt ∧
+    VmtTextOK Gen.Tok.tables Gen.C20.vmtLead sampleVmt := by
+  refine ⟨⟨by decide, ?_, ?_, by decide +kernel⟩, ⟨?_, ?_, ?_, ?_, by decide +kernel⟩⟩
+  · unfold distinctFold; decide +kernel
+  · decide +kernel
+  · decide +kernel
+  · decide +kernel
+  · unfold sampleVmt okKVsv okKVv okKVsv okKVv okKVsv okKVv okKVsv strOKv; decide +kernel
+  · unfold sampleVmt okKVsv okKVv okKVsv okKVv okKVsv strOKv; decide +kernel
+
+example : parseVmtText Gen.Tok.tables (fun c => if c = 'P' then ['p'] else if c = 'C' then ['c'] else [c])
+    (exportVmt Gen.Tok.tables Gen.C20.vmtLead sampleVmt) = some sampleVmt :=
+  C20_vmt _ C01.C01_gen_tables _ C20_gen_quote.1 _ _ C20_vmt_sample_ok.2 C20_vmt_sample_ok.1
+
+end Vmt
 
 /-! ## quantised fields -/
 
